@@ -80,6 +80,9 @@ func mkRecord(top gts.Topology, n int) gts.Sequence {
 	// a forward feature that starts inside a reverse-strand one listed before it:
 	// the 5' ends of the located regions (40, then 30) are not in table order
 	ff = ff.Insert(gts.Feature{Key: "CDS", Loc: gts.Range(30, 38), Props: gts.Props{{"gene", "c"}}})
+	// two different spliced features with the same ends and the same total length
+	ff = ff.Insert(gts.Feature{Key: "tRNA", Loc: gts.Join(gts.Range(1, 10), gts.Range(20, 29)), Props: gts.Props{{"note", "t1"}}})
+	ff = ff.Insert(gts.Feature{Key: "tRNA", Loc: gts.Join(gts.Range(1, 5), gts.Range(15, 29)), Props: gts.Props{{"note", "t2"}}})
 	// two regions with the same 5' end
 	ff = ff.Insert(gts.Feature{Key: "regulatory", Loc: gts.Range(43, 52), Props: gts.Props{{"note", "r1"}}})
 	ff = ff.Insert(gts.Feature{Key: "regulatory", Loc: gts.Range(43, 47), Props: gts.Props{{"note", "r2"}}})
@@ -125,7 +128,7 @@ func runC15(o *Out) {
 	}
 	n := 60
 	locators := []string{"10", "10..20", "complement(12..18)", "CDS", "gene", "misc_feature", "exon", "CDS@^", "CDS@^-2..$+2", "@^+3",
-		"gene@$", "^+5..^+10", "misc_feature@^..^+3", "CDS/gene=b", "/gene=a", "$-10..$", "1", "60", "regulatory", "mRNA", "regulatory@^"}
+		"gene@$", "^+5..^+10", "misc_feature@^..^+3", "CDS/gene=b", "/gene=a", "$-10..$", "1", "60", "regulatory", "mRNA", "regulatory@^", "tRNA"}
 	guest := gts.New("guest", gts.FeatureSlice{{Key: "gf", Loc: gts.Range(0, 4), Props: gts.Props{{"note", "g"}}}}, []byte("NNNN"))
 	guestFa := []byte(">guest\nNNNN\n")
 	for _, top := range []gts.Topology{gts.Linear, gts.Circular} {
